@@ -29,7 +29,7 @@ type textPlanJSON struct {
 
 func loadTextPlans() map[string]textPlanJSON {
 	out := map[string]textPlanJSON{}
-	b, err := os.ReadFile("/verif/lean/DnsModel/Generated/textplans.json")
+	b, err := os.ReadFile(verifDir() + "/lean/DnsModel/Generated/textplans.json")
 	if err != nil {
 		return out
 	}
